@@ -37,6 +37,9 @@ Cand(mm, nm) ==
        [] nm \in {"read_lib", "lib_null"} -> {A(nm, "", h, "", "", 0) : h \in RangeOf(LibH)}
        [] nm = "lib_setstr" -> {A(nm, "", h, "", "zz", 0) : h \in RangeOf(LibH)}
        [] nm = "parse_exec" -> {A("parse_exec", c, fx, "", "", p) : c \in cs, p \in DOMAIN Prog}
+       \* (drawn separately so that valid texts, and texts declaring functions, follow the rejected ones often enough)
+       [] nm = "parse_valid" -> {A("parse_exec", c, fx, "", "", p) : c \in cs, p \in {q \in DOMAIN Prog : ~Prog[q].bad}}
+       [] nm = "parse_func" -> {A("parse_exec", c, fx, "", "", p) : c \in cs, p \in {q \in DOMAIN Prog : ~Prog[q].bad /\ \E j \in DOMAIN Prog[q].ast : Prog[q].ast[j].k = "func"}}
        [] nm = "run"        -> {A("run", mm.exe[h].c, h, "", "", 0) : h \in RangeOf(ExeH)}
        [] nm = "run2"       -> {A("run2", "c1", h, "", "", 0) : h \in RangeOf(ExeH)}
        [] nm \in {"exec_free"} -> {A(nm, "", h, "", "", 0) : h \in RangeOf(ExeH)}
@@ -46,7 +49,7 @@ Cand(mm, nm) ==
        [] nm = "drop"       -> {A("drop", c, fv, "", "", 0) : c \in cs}
        [] OTHER -> {}
 ActNames == {"ctx_clone", "ctx_free", "ctx_purge", "purge_wm", "reset_stop", "break", "val_new", "val_free", "val_null",
-             "read_val", "val_setstr", "store", "load", "read_lib", "lib_setstr", "lib_null", "parse_exec", "run", "run2", "exec_free",
+             "read_val", "val_setstr", "store", "load", "read_lib", "lib_setstr", "lib_null", "parse_exec", "parse_valid", "parse_func", "run", "run2", "exec_free",
              "parse_expr", "eval", "expr_free", "drop"}
 Acts(mm, nm) == {a \in Cand(mm, nm) : Pre(mm, a)}
 
@@ -95,7 +98,7 @@ InitMC == \E s \in {<<>>, Seed2, Seed4} : hist = s /\ m = Fold(M0, s) /\ nw = 0
 Weighted == <<"ctx_clone", "ctx_clone", "ctx_free", "ctx_purge", "purge_wm", "reset_stop", "reset_stop", "break",
               "val_new", "val_new", "val_new", "val_free", "val_null", "read_val", "read_val", "val_setstr",
               "store", "store", "store", "load", "load", "load", "read_lib", "read_lib", "read_lib", "read_lib", "lib_setstr", "lib_setstr", "lib_setstr", "lib_null",
-              "parse_exec", "parse_exec", "parse_exec", "parse_exec", "parse_exec", "run", "run", "run", "run", "run", "run",
+              "parse_exec", "parse_exec", "parse_exec", "parse_exec", "parse_valid", "parse_valid", "parse_valid", "parse_func", "parse_func", "run", "run", "run", "run", "run", "run",
               "run2", "run2", "run2", "run2", "exec_free", "parse_expr", "parse_expr", "parse_expr", "eval", "eval", "eval", "eval", "eval",
               "expr_free", "drop", "drop", "drop">>
 \* (RandomElement is drawn once per bound variable: a LET definition would be re-evaluated at every use)
